@@ -71,11 +71,12 @@ def parse_overlay(path):
         for i, line in enumerate(f, 1):
             line = line.rstrip("\n")
             if line.startswith("@"):
-                m = re.match(r'@(\w+)\s*(.*)$', line)
-                kind, rest = m.group(1), m.group(2).strip()
+                m = re.match(r'@(\w+)(\??)\s*(.*)$', line)
+                kind, optional, rest = m.group(1), m.group(2) == "?", m.group(3).strip()
                 args = re.findall(r'"[^"]*"|\S+', rest)
                 args = [a[1:-1] if a.startswith('"') else a for a in args]
                 cur = Section(kind, args, i, path)
+                cur.optional = optional
                 secs.append(cur)
             elif cur is not None:
                 cur.lines.append((line, i))
@@ -266,7 +267,7 @@ def assemble_unit(unit_name, unit_dir, cfg, extracted, prelude_files, canary=Fal
         src_lines = joined.split("\n")
         pending_after = []  # (sec) to emit after current line
         # anchors for @before/@after
-        anchor_secs = [s_ for s_ in secs if s_.kind in ("before", "after", "closure")]
+        anchor_secs = [s_ for s_ in secs if s_.kind in ("before", "after")]
         n = len(src_lines)
         idx = 0
         while idx < n:
@@ -345,6 +346,35 @@ def assemble_unit(unit_name, unit_dir, cfg, extracted, prelude_files, canary=Fal
                     out.append((indent + f"assert(!vx_canary({canary_n[0]})); // CANARY {f_}:{kind}:{k}", {"k": "canary", "fn": f_, "id": f"{f_}:{kind}:{k}"}))
                 idx += 1
                 continue
+            m = re.match(r'^vx_closure_head!\((\w+), (\d+)\);$', stripped)
+            if m:
+                f_, k = m.group(1), m.group(2)
+                csec = find("closure", f_, k)
+                if csec is not None:
+                    csec.used = True
+                    j = len(out) - 1
+                    while j >= 0 and not out[j][0].rstrip().endswith("{"):
+                        j -= 1
+                    hl, ho = out[j]
+                    hm = None
+                    for hm_ in re.finditer(r'\|[^|]*\|', hl):
+                        hm = hm_
+                    if hm is None:
+                        raise Undecided("assemble", f"{name}: closure {k} of {f_}: header `|..|` not on the line before its body: `{hl.strip()}`")
+                    body_lines = [(t, ln) for t, ln in csec.lines if t.strip()]
+                    newh = body_lines[0][0].strip()
+                    out[j] = (hl[: hm.start()] + newh, dict(ho, k="closure-header"))
+                    last_kw = None
+                    for kw, cname, cl in split_clauses(body_lines[1:]):
+                        first = True
+                        for t, ln in cl:
+                            prefix = indent + (kw + " " if (first and kw != last_kw) else "    ")
+                            last_kw = kw
+                            out.append((prefix + t.strip(), {"k": "clause", "fn": f_, "item": name, "kw": kw, "closure": int(k), "name": f"closure{k}.{cname}", "ofile": os.path.relpath(csec.path, VERIF), "oline": ln, "first": first}))
+                            first = False
+                    out.append((indent[:-4] + "{", {"k": "gen"}))
+                idx += 1
+                continue
             m = re.match(r'^vx_fn_end!\((\w+)\);$', stripped)
             if m:
                 f_ = m.group(1)
@@ -367,18 +397,6 @@ def assemble_unit(unit_name, unit_dir, cfg, extracted, prelude_files, canary=Fal
                     elif s_.kind == "after":
                         s_.used = True
                         pending_after.append(s_)
-                    elif s_.kind == "closure":
-                        s_.used = True
-                        # replace the closure header `|..|` (+ optional `-> T`) on this line up to the body's `{`
-                        # convention: header is on one line and ends with `{` or the body is an expression
-                        hm = re.search(r'\|[^|]*\|', line)
-                        if not hm:
-                            raise Undecided("anchor-lost", f"closure header not found on line `{stripped}`")
-                        newh = " ".join(t.strip() for t, _ in s_.lines if t.strip())
-                        rest = line[hm.end():]
-                        out.append((line[: hm.start()] + newh + (" " if not rest.startswith(" ") else "") + rest.lstrip() if rest.strip() else line[: hm.start()] + newh,
-                                    {"k": "closure-header", "fn": cur_fn, "item": name, "ofile": os.path.relpath(s_.path, VERIF), "oline": s_.line_no, "tline": idx + 1, "file": ex["file"], "span": ex["span"]}))
-                        emitted = True
             if not emitted:
                 out.append((line, code_origin(idx + 1) | {"fn": cur_fn}))
             if pending_after:
@@ -401,7 +419,7 @@ def assemble_unit(unit_name, unit_dir, cfg, extracted, prelude_files, canary=Fal
                 A.lines.append(t)
                 A.origin.append({"k": "raw", "ofile": os.path.relpath(s_.path, VERIF), "oline": ln})
     for s_ in secs:
-        if not s_.used:
+        if not s_.used and not getattr(s_, "optional", False):
             raise Undecided("anchor-lost", f"overlay section @{s_.kind} {' '.join(s_.args)} ({os.path.relpath(s_.path, VERIF)}:{s_.line_no}) matched nothing")
     A.add("} // verus!", {"k": "gen"})
     A.add("fn main() {}", {"k": "gen"})
